@@ -226,19 +226,26 @@ def is_skipped(d, vs):
     return (d["skip"] is not None and val(d["skip"])) or (d["incl"] is not None and not val(d["incl"]))
 
 
-def ref_levels(sels, frags, vs):
+INF = float("inf")
+
+
+def ref_levels(sels, frags, vs, path=frozenset()):
+    """reference levels; a selected fragment cycle (a fragment re-entered while it is being expanded, at the same level or
+       through fields) makes the nesting unbounded: INF"""
     best = 0
     for s in sels:
         if is_skipped(s["d"], vs):
             continue
         if s["k"] == "f":
-            best = max(best, 1 + ref_levels(s["s"], frags, vs))
+            best = max(best, 1 + ref_levels(s["s"], frags, vs, path))
         elif s["k"] == "i":
-            best = max(best, ref_levels(s["s"], frags, vs))
+            best = max(best, ref_levels(s["s"], frags, vs, path))
         else:
+            if s["n"] in path:
+                return INF
             fr = [f for f in frags if f["name"] == s["n"]]
             if fr:
-                best = max(best, ref_levels(fr[-1]["sels"], frags, vs))
+                best = max(best, ref_levels(fr[-1]["sels"], frags, vs, path | {s["n"]}))
     return best
 
 
@@ -657,6 +664,14 @@ def filters_of(doc):
     return [None] + names + ["Nope", ""]
 
 
+def grid_for(case):
+    """cyclic documents: a small grid (every call costs a full budget / recursion-limit traversal)"""
+    if case.cyclic:
+        names = [o["name"] for o in case.doc["ops"] if o["name"]]
+        return [(None, 0), (None, 3), (None, 8)] + ([(names[-1], 2)] if names else []) + [("Nope", 0)]
+    return grid_of(case.doc)
+
+
 def grid_of(doc):
     """(filter, limit) pairs checked for a document"""
     out = []
@@ -707,6 +722,7 @@ class Case:
         self.validate = True
         self.raw = False           # real_vs are arbitrary JSON values (Lean: "raw" / ruleR)
         self.unavailable = None
+        self.cyclic = False        # the document has a fragment cycle (invalid): never-raises clause + defined outcome
 
     def detail(self, **kw):
         d = {"text": p_doc(self.doc, self.defaults), "variables": self.real_vs, "spec_variables": self.vs}
@@ -727,7 +743,7 @@ def oracle_failures(real, case, limits=LIMITS, want_valid=True):
     fails = []
     case.grid = {}
     case.document = document
-    for filt, limit in grid_of(doc):
+    for filt, limit in grid_for(case):
         if limits is not LIMITS and limit not in limits:
             continue
         if True:
@@ -754,7 +770,7 @@ def oracle_failures(real, case, limits=LIMITS, want_valid=True):
                     else:
                         fails.append(("error-order", 0, {"limit": limit, "filter": filt, "flagged": got, "expected": exp}))
                 return fails[:1]
-    if not fails and not (case.unavailable and any(case.unavailable)):
+    if not fails and not (case.unavailable and any(case.unavailable)) and not case.cyclic:
         pf = paths_failure(real, case, document)
         if pf:
             return [pf]
@@ -879,15 +895,17 @@ def report(ctx, real, case, fails):
         if ctx.stats["generated-invalid"] <= 2:
             ctx.notes.append("generator produced an invalid document: " + p_doc(case.doc)[:300])
         return
-    small = shrink_raw(real, case, kind, i) if case.raw else shrink(real, case, kind)
+    small = case if case.cyclic else (shrink_raw(real, case, kind, i) if case.raw else shrink(real, case, kind))
     f2 = oracle_failures(real, small) or fails
-    case = small if small.raw else case
+    case = small if (small.raw or small.cyclic) else case
     kind2, i2, info2 = f2[0]
     i2 = min(i2, len(small.doc["ops"]) - 1)
-    feat = features(small.doc, i2, small.vs)
+    feat = "fragment-cycle" if case.cyclic else features(small.doc, i2, small.vs)
     if kind2.startswith("raises:CoercionError") and small.defaults:
         feat = "directive-variable-omitted"
-    if case.raw:
+    if case.cyclic:
+        feat = "fragment-cycle"
+    if case.raw and not case.cyclic:
         feat = "uncoercible-variables"
         if kind2.startswith("raises:CoercionError") and case.unavailable and any(case.unavailable):
             feat = "directive-variable-unavailable"
@@ -914,7 +932,7 @@ def correspond(ctx, real, cases, fixed, sf_fixed=True, vars_fixed=True):
     for c in cases:
         reqs.append({"op": "check", "doc": wire_doc(c.doc, c.defaults), "raw": c.real_vs if c.raw else {},
                      "vars": {k: v for k, v in c.real_vs.items() if isinstance(v, bool)},
-                     "grid": [[f, l] for f, l in grid_of(c.doc)], "maxdepths": MAXDEPTHS})
+                     "grid": [[f, l] for f, l in grid_for(c)], "maxdepths": MAXDEPTHS})
     answers = ctx.driver.ask(reqs)
     for c, a in zip(cases, answers):
         document = getattr(c, "document", None) or real.parse(p_doc(c.doc, c.defaults))
@@ -922,10 +940,10 @@ def correspond(ctx, real, cases, fixed, sf_fixed=True, vars_fixed=True):
         if conv != wire_doc(c.doc, c.defaults):
             ctx.fail("corr:ast-conversion", "converted parsed AST differs from the generated tree", c.detail(), kind="correspondence")
             continue
-        if a.get("acyclic") is not True:
+        if a.get("acyclic") is not True and not c.cyclic:
             ctx.fail("corr:acyclic", "Lean `acyclic` rejects a document the validator accepts", c.detail(), kind="correspondence")
         spec = [ref_depth(c.doc, i, c.vs) for i in range(len(c.doc["ops"]))]
-        if a.get("spec") != spec and c.real_vs == c.vs and not c.raw:
+        if a.get("spec") != spec and c.real_vs == c.vs and not c.raw and not c.cyclic:
             ctx.fail("corr:spec-depth", "Lean spec depth differs from the Python reference depth",
                      c.detail(lean=a.get("spec"), reference=spec), kind="correspondence")
         key = ("rulev" if vars_fixed else "rule") if fixed else "orig"
@@ -934,7 +952,7 @@ def correspond(ctx, real, cases, fixed, sf_fixed=True, vars_fixed=True):
                 continue
             key = "rulecur"
         have = getattr(c, "grid", {})
-        for (f, l), m in zip(grid_of(c.doc), a[key]):
+        for (f, l), m in zip(grid_for(c), a[key]):
             got = have[(f, l)] if (f, l) in have else real.flags(document, c.real_vs, l, f)
             m = ERRMAP.get(m, m) if isinstance(m, str) else m
             ctx.count()
@@ -943,14 +961,14 @@ def correspond(ctx, real, cases, fixed, sf_fixed=True, vars_fixed=True):
                          "model of the %s rule and the implementation differ" % ("fixed" if fixed else "unchanged"),
                          c.detail(limit=l, filter=f, impl=got, model=m), kind="correspondence")
                 break
-        for md_i, md in enumerate(MAXDEPTHS if not c.raw else []):
+        for md_i, md in enumerate(MAXDEPTHS if not (c.raw or c.cyclic) else []):
             impl = real.paths(document, c.real_vs, md if md else None)
             model = [[(ERRMAP.get(cell[md_i], cell[md_i]) if isinstance(cell[md_i], str) else cell[md_i]) for cell in row] for row in a["paths" if sf_fixed else "pathsOrig"]]
             ctx.count()
             if impl != model:
                 ctx.fail("corr:selected_fields", "model and selected_fields differ", c.detail(maxdepth=md, impl=impl, model=model), kind="correspondence")
                 break
-        if not c.raw and md == MAXDEPTHS[-1]:
+        if not (c.raw or c.cyclic) and md == MAXDEPTHS[-1]:
             impl0 = real.paths(document, c.real_vs, 0)
             if impl0 != real.paths(document, c.real_vs, None):
                 ctx.fail("corr:selected_fields:maxdepth0", "maxdepth=0 and None differ", c.detail(), kind="correspondence")
@@ -972,13 +990,22 @@ def extract(ctx):
     src = (REPO / "src/py_gql/utilities/max_depth.py").read_text()
     if "class MaxDepthValidationRule" not in src:
         raise ValueError("max_depth.py no longer defines MaxDepthValidationRule")
-    tolerant = bool(re.search(r"skip_selection\s*=\s*_skip_unless_unknown", src)) and "def _skip_unless_unknown" in src
+    tolerant = is_tolerant_tree()
+    budgeted = is_budgeted_tree()
     return {"PyGqlModel/Generated/DepthVariant.lean": (
         "/- GENERATED by harness/corr/C19.py: extract() from src/py_gql/utilities/max_depth.py — do not edit. -/\n"
         "namespace PyGql.Generated.DepthVariant\n\n"
         "/-- `_nesting_levels` calls `collect_fields_untyped(..., skip_selection=_skip_unless_unknown)` (C19-Q1vars2.patch) -/\n"
         "def tolerantSkip : Bool := %s\n\n"
-        "end PyGql.Generated.DepthVariant\n" % ("true" if tolerant else "false"))}
+        "/-- the traversal carries a nesting budget and `__call__` reports an exhausted budget (C19-Q2.patch) -/\n"
+        "def budgeted : Bool := %s\n\n"
+        "end PyGql.Generated.DepthVariant\n" % ("true" if tolerant else "false", "true" if budgeted else "false"))}
+
+
+def is_budgeted_tree():
+    from common import REPO
+    src = (REPO / "src/py_gql/utilities/max_depth.py").read_text()
+    return "_budget=budget" in src and "except (ExpansionBudgetExhausted" in src
 
 
 def is_tolerant_tree():
@@ -1011,6 +1038,7 @@ def corpus_cases():
 
 def run(ctx):
     real = Real()
+    budget0 = ctx.time_left()
     fixed = is_fixed_tree()
     sf_fixed = is_sf_fixed_tree()
     vars_fixed = is_vars_fixed_tree()
@@ -1030,7 +1058,7 @@ def run(ctx):
         pending.append(case)
         depths = [ref_depth(case.doc, i, case.vs) for i in range(len(case.doc["ops"]))]
         for d in depths:
-            ctx.stat("spec-depth=%d" % min(d, 9))
+            ctx.stat("spec-depth=%s" % ("unbounded" if d == INF else min(d, 9)))
         top = any(s["k"] != "f" for o in case.doc["ops"] for s in o["sels"])
         if max(depths) >= 1 or top:
             ctx.nontrivial(nontrivial_key or (p_doc(case.doc), sorted(case.vs.items())))
@@ -1071,7 +1099,8 @@ def run(ctx):
         basedoc = {"ops": [{"name": None, "sels": base}], "frags": []}
         k = 0
         for sels, frags in distributions(base, counter):
-            if ctx.out_of_time():
+            if ctx.out_of_time() or ctx.time_left() < 0.5 * budget0:
+                ctx.notes.append("exhaustive enumeration of base %d stopped at %d (machine slow: half of the budget is kept for the sampled streams)" % (bi, k))
                 break
             doc = rename_frags({"ops": [{"name": None, "sels": sels}], "frags": frags})
             case = Case(doc, {}, base=basedoc)
@@ -1117,8 +1146,25 @@ def run(ctx):
             check(case, ("unco-fixed", p_doc(fdoc), json.dumps(raw, sort_keys=True)))
     flush()
 
+    # --- cyclic documents: the three shapes of hunt finding C19/1 + a two-operation one ----------
+    for cdoc in HUNT_CYCLIC:
+        case = make_cyclic_case(cdoc, {})
+        ctx.stat("cyclic-hand-made")
+        check(case, ("cyc-fixed", p_doc(cdoc)))
+        cyclic_pipeline(ctx, real, cdoc, {}, case.vs)
+    flush()
+
+    # --- hunt finding C19/2: every fragment spread twice (exponentially many paths, one depth) ------
+    n_exp = 13
+    exp_frags = [{"name": "E%d" % k, "sels": [F("a", [S("E%d" % (k + 1))]), F("b", [S("E%d" % (k + 1))])]} for k in range(1, n_exp)]
+    exp_frags.append({"name": "E%d" % n_exp, "sels": [F("c")]})
+    case = Case({"ops": [{"name": None, "sels": [S("E1")]}], "frags": exp_frags}, {})
+    ctx.stat("fragments-spread-twice")
+    check(case, ("exp", n_exp))
+    flush()
+
     # --- sampled larger documents ---------------------------------------------------------
-    n = ctx.n(300, 2400)
+    n = ctx.n(220, 2000)
     for j in range(n):
         if ctx.time_left() < 8:
             ctx.notes.append("sampled stream stopped early at %d/%d" % (j, n))
@@ -1151,7 +1197,9 @@ def run(ctx):
                 check(Case(doc, vs, base=base))
         ctx.stat("sampled")
         uncoercible_stream(ctx, real, check, doc, assigns[0], j)
-        if j < 40 and used:
+        if j % 2 == 0:
+            cyclic_stream(ctx, real, check, doc, assigns[0])
+        if j % 6 == 0 and j < 96 and used:
             entry_point_probe(ctx, real, doc, assigns[0])
         if used:
             history_check(ctx, real, doc, assigns, ctx.n(7, 14))
@@ -1246,6 +1294,93 @@ def uncoercible_stream(ctx, real, check, doc, vs0, j):
                              {"text": text, "variables": json.loads(json.dumps(raw, default=str)), "via_validate_ast": via,
                               "never_raises_probe": True})
                     break
+
+
+def frag_reach(frags, name):
+    """names of the fragments reachable from fragment `name` (its own spreads, transitively)"""
+    by = {f["name"]: f for f in frags}
+    out, todo = set(), [name]
+    while todo:
+        n = todo.pop()
+        if n not in by:
+            continue
+        stack = list(by[n]["sels"])
+        while stack:
+            x = stack.pop()
+            if x["k"] in "fi":
+                stack += x["s"]
+            elif x["n"] not in out:
+                out.add(x["n"])
+                todo.append(x["n"])
+    return out
+
+
+def make_cyclic_case(doc, vs):
+    views, ok, unavailable = effective_views(doc, False, vs)
+    case = Case(doc, views, real_vs=dict(vs))
+    case.raw, case.cyclic, case.validate, case.unavailable = True, True, False, unavailable
+    return case
+
+
+def cyclic_stream(ctx, real, check, doc, vs0):
+    """CYCLIC documents (invalid: NoFragmentCycles rejects them, but every validator runs): a back edge is added to a generated
+       document — self spread, indirect cycle, at the top of the fragment body or through a (new or existing) field. The rule must not
+       raise, alone and behind the default validator; an operation that selects the cycle is reported at every limit, the others
+       exactly as before."""
+    rng = ctx.rng
+    if not doc["frags"]:
+        return
+    frags = [dict(f, sels=list(f["sels"])) for f in doc["frags"]]
+    i = rng.randrange(len(frags))
+    target = frags[i]["name"]
+    closers = [f["name"] for f in frags if f["name"] == target or target in frag_reach(frags, f["name"])]
+    back = S(rng.choice(closers), d=rand_dirs(rng, 0.15))
+    shape = rng.choice(["top", "field", "nested"])
+    if shape == "top":
+        frags[i]["sels"].insert(rng.randint(0, len(frags[i]["sels"])), back)
+    elif shape == "field":
+        frags[i]["sels"].append(F("a", [F("c"), back], alias="x"))
+    else:
+        objs = [k for k, x in enumerate(frags[i]["sels"]) if x["k"] == "f" and x["s"]]
+        if objs:
+            k = rng.choice(objs)
+            frags[i]["sels"][k] = dict(frags[i]["sels"][k], s=frags[i]["sels"][k]["s"] + [back])
+        else:
+            frags[i]["sels"].append(back)
+    cdoc = {"ops": doc["ops"], "frags": frags}
+    case = make_cyclic_case(cdoc, vs0)
+    ctx.stat("cyclic-documents")
+    ctx.stat("cyclic:%s%s" % (shape, ":indirect" if back["n"] != target else ":self"))
+    if any(ref_depth(cdoc, k, case.vs) == INF for k in range(len(cdoc["ops"]))):
+        ctx.stat("cyclic-documents-where-an-operation-selects-the-cycle")
+    check(case, ("cyc", p_doc(cdoc), json.dumps(vs0, sort_keys=True)))
+    if ctx.stats.get("cyclic-documents", 0) % 4 == 1:
+        cyclic_pipeline(ctx, real, cdoc, vs0, case.vs)
+
+
+def cyclic_pipeline(ctx, real, cdoc, vs, views):
+    """behind the default validator, through the entry point"""
+    text = p_doc(cdoc)
+    name = cdoc["ops"][0]["name"]
+    ctx.count()
+    got, base = pipeline_outcome(real, text, vs, name, 3, None)
+    unbounded = any(ref_depth(cdoc, k, views) > 3 for k in range(len(cdoc["ops"])))
+    if got.startswith("exc:") or (unbounded and got != "rejected-depth"):
+        ctx.fail("%s:fragment-cycle:entry-point" % (("raises:" + got[4:]) if got.startswith("exc:") else "not-flagged"),
+                 "graphql_blocking(validators=[default_validator, MaxDepthValidationRule(3)]) on a document with a fragment cycle "
+                 "must answer with errors, not raise",
+                 {"text": text, "variables": vs, "limit": 3, "operation_name": name, "rule_filter": None,
+                  "entry_point": True, "outcome": got, "expected": "rejected-depth" if unbounded else "rejected-other"})
+
+
+HUNT_CYCLIC = [
+    {"ops": [{"name": None, "sels": [S("A")]}], "frags": [{"name": "A", "sels": [F("c"), S("A")]}]},
+    {"ops": [{"name": None, "sels": [S("A")]}], "frags": [{"name": "A", "sels": [F("c"), S("B")]}, {"name": "B", "sels": [S("A")]}]},
+    {"ops": [{"name": None, "sels": [S("A")]}], "frags": [{"name": "A", "sels": [F("a", [S("A")])]}]},
+    # the cycle is not selected by Q1; Q0 selects it
+    {"ops": [{"name": "Q0", "sels": [F("a", [S("A")])]}, {"name": "Q1", "sels": [F("a", [F("b", [F("c")])])]}],
+     "frags": [{"name": "A", "sels": [F("b", [S("B")])]}, {"name": "B", "sels": [F("c"), S("A")]}]},
+]
 
 
 def pipeline_outcome(real, text, vs, name, limit, rule_filter):
